@@ -15,15 +15,23 @@ inductive ObsOp where
   | add (name : Str) (id : Nat)
   | run
   | runReg (name : Str) (id : Nat) (visited : Bool)
+  | runPartial (visited : List Nat)
   deriving Repr, DecidableEq
 
 def Obs.bumpOne (o : Obs) (id : Nat) : Obs :=
   { o with counts := o.counts.map (bump (fun i => i == id)) }
 
+/-- a round cut short: one target panicked in its callback (reload recovers the panic), so only
+    the registered targets visited so far — which ones is decided by Go's map iteration order —
+    were called; the registry itself is untouched -/
+def Obs.runPartial (o : Obs) (ids : List Nat) : Obs :=
+  { o with counts := o.counts.map (bump (fun i => o.registered i && ids.contains i)) }
+
 def Obs.step (o : Obs) : ObsOp → Obs
   | .add n i => o.add n i
   | .run => o.run
   | .runReg n i v => let o1 := (o.run).add n i; if v then o1.bumpOne i else o1
+  | .runPartial ids => o.runPartial ids
 
 def Obs.exec (o : Obs) (ops : List ObsOp) : Obs := ops.foldl Obs.step o
 
@@ -37,6 +45,7 @@ def callsSpec (reg : List (Str × Nat)) : List ObsOp → Nat → Nat
   | .run :: r, id => (if regHas reg id then 1 else 0) + callsSpec reg r id
   | .runReg n i v :: r, id =>
     (if regHas reg id then 1 else 0) + (if v && i == id then 1 else 0) + callsSpec (regPut reg n i) r id
+  | .runPartial ids :: r, id => (if regHas reg id && ids.contains id then 1 else 0) + callsSpec reg r id
 
 /-- every registered target has a counter -/
 def Obs.WF (o : Obs) : Prop := ∀ p ∈ o.reg, o.counts.any (fun q => q.1 == p.2) = true
@@ -93,8 +102,38 @@ theorem wf_bumpOne (o : Obs) (i : Nat) (h : o.WF) : (o.bumpOne i).WF := by
   simp only [Obs.bumpOne, any_map_bump]
   exact h p hp
 
+theorem wf_runPartial (o : Obs) (ids : List Nat) (h : o.WF) : (o.runPartial ids).WF := by
+  intro p hp
+  simp only [Obs.runPartial, any_map_bump]
+  exact h p hp
+
+theorem count_runPartial (o : Obs) (ids : List Nat) (id : Nat) :
+    (o.runPartial ids).count id =
+      if (o.registered id && ids.contains id) && o.counts.any (fun q => q.1 == id) then o.count id + 1 else o.count id := by
+  unfold Obs.count Obs.runPartial
+  simp only [find_map_bump]
+  cases hfind : o.counts.find? (fun p => p.1 == id) with
+  | none =>
+    have hn : o.counts.any (fun p => p.1 == id) = false := by
+      cases ha : o.counts.any (fun p => p.1 == id) with
+      | false => rfl
+      | true =>
+        simp only [List.any_eq_true] at ha
+        obtain ⟨p, hp, e⟩ := ha
+        exact absurd e (List.find?_eq_none.mp hfind p hp)
+    simp [hn]
+  | some p =>
+    have hpid : p.1 = id := by
+      have := List.find?_some hfind
+      simpa using this
+    have ha : o.counts.any (fun p => p.1 == id) = true := by
+      simp only [List.any_eq_true]
+      exact ⟨p, List.mem_of_find?_eq_some hfind, by simp [hpid]⟩
+    simp only [Option.map_some, bump, hpid, ha, Bool.and_true]
+
 theorem wf_step (o : Obs) (op : ObsOp) (h : o.WF) : (o.step op).WF := by
   cases op with
+  | runPartial ids => exact wf_runPartial o ids h
   | add n i => exact wf_add o n i h
   | run => exact wf_run o h
   | runReg n i v =>
@@ -181,6 +220,18 @@ theorem exec_count (o : Obs) (ops : List ObsOp) (id : Nat) (h : o.WF) :
       · have hr' : o.registered id = false := by simpa using hr
         have : regHas o.reg id = false := hr'
         simp [hr', this]
+    | runPartial ids =>
+      simp only [Obs.step, callsSpec, count_runPartial]
+      have hreg : (o.runPartial ids).reg = o.reg := rfl
+      rw [hreg]
+      by_cases hr : o.registered id = true
+      · have hk := registered_known o id h hr
+        have hh : regHas o.reg id = true := hr
+        simp only [hr, hk, hh, Bool.true_and, Bool.and_true]
+        split <;> omega
+      · have hr' : o.registered id = false := by simpa using hr
+        have hh : regHas o.reg id = false := hr'
+        simp [hr', hh]
     | runReg n i v =>
       simp only [Obs.step, callsSpec]
       have hreg : ((o.run).add n i).reg = regPut o.reg n i := rfl
@@ -213,6 +264,16 @@ theorem exec_count (o : Obs) (ops : List ObsOp) (id : Nat) (h : o.WF) :
           · subst e; simp; omega
           · have : (i == id) = false := by simp [e]
             simp [this]
+
+/-- a round cut short by a panicking observer changes neither the registry nor anybody's future:
+    the next complete round calls every registered target once -/
+theorem runPartial_then_run (o : Obs) (ids : List Nat) (id : Nat) (h : o.WF) (hr : o.registered id = true) :
+    ((o.runPartial ids).run).count id = (o.runPartial ids).count id + 1 ∧ (o.runPartial ids).reg = o.reg := by
+  refine ⟨?_, rfl⟩
+  have hw := wf_runPartial o ids h
+  have hr' : (o.runPartial ids).registered id = true := hr
+  rw [Obs.run_count]
+  simp [hr', registered_known _ id hw hr']
 
 theorem wf_empty : Obs.empty.WF := by intro p hp; cases hp
 
